@@ -82,6 +82,11 @@ CLAIMS = {
         technique='metamorphic differential symbolic execution (CrossHair/z3): the same template in several spellings of its language markup, all compiled by the real compiler, symbolic bindings; output scanned for language markup',
         text='Per enumerated template the solver decides for all bindings that every spelling renders identically, that no TAL/METAL/I18N/meta attribute, prefix or namespace URI reaches the output and that every foreign attribute does.',
         note='Trusted: CrossHair models; the re-spelling generator vlib/tprog.py. Prefix strings are enumerated (they become dict keys).'),
+    'C17': dict(
+        engine='Z+X', level='model_checking', design_ref='DESIGN.md 4 C17',
+        technique='z3 regular-language inclusion from the live RE_ENCODING pattern (no length bound); symbolic execution (CrossHair/z3) of read_xml_encoding (str-domain twin regenerated from its source), read_bytes and detect_encoding over documents assembled from symbolic grammar choices',
+        text='Language-level facts about the declaration pattern are decided without length bound; the decision order BOM > declaration > meta > default, BOM removal, XML/HTML classification and re-cooking are decided over all combinations of the enumerated grammar choices.',
+        note='Trusted: stdlib codecs; CrossHair models; read_xml_encoding is executed as a str-domain twin generated from its current source (bytes literals -> str, decode removed) and pinned to the real bytes function on representatives.'),
     'C03': dict(
         engine='X+Z', level='model_checking', design_ref='DESIGN.md 4 C03',
         technique='symbolic execution (CrossHair/z3) of iter_xml/match_tag/emitters on shape-enumerated character-symbolic strings; z3 regex inclusion from the live lexer pattern',
